@@ -14,7 +14,7 @@ from ..flow import Flow
 
 UTILS = "typhon/files/utils.py"
 ADVERTISED = {"gz": "gzip.GzipFile", "bz2": "bz2.BZ2File", "zip": "zipfile.ZipFile", "xz": "lzma.LZMAFile"}
-EXPECT = {"C12.table": 8, "C12.cleanup": 3, "C12.commit": 2, "C12.passthrough": 2, "C12.zipname": 2}
+EXPECT = {"C12.table": 8, "C12.cleanup": 3, "C12.commit": 2, "C12.passthrough": 2, "C12.zipname": 2, "C12.writer": 2}
 
 WRITE_EFFECTS = {"remove", "unlink", "rename", "replace", "truncate", "mknod", "makedirs", "mkdir", "move",
                  "copy", "copy2", "copyfile", "rmtree", "touch", "write_text", "write_bytes", "rmdir", "symlink", "link"}
@@ -494,6 +494,66 @@ def _show(v):
     return str(v)
 
 
+def rule_writer(ctx):
+    ctx.rule("C12.writer", "T2", "compress_as writes the target only through the compressor of the format; the format tested is the one requested")
+    ca = ctx.func(UTILS, "compress_as")
+    tgt = ca.params[2]
+    flow = Flow(ca)
+    comp_names = set()
+    for st in flow.stmts:
+        if isinstance(st, ast.Assign) and isinstance(st.targets[0], ast.Name) and calls_in(st.value, "get_compressor"):
+            comp_names.add(st.targets[0].id)
+    others = []
+    for c in calls_in(ca.node):
+        d = dotted(c.func) or ""
+        last = d.split(".")[-1]
+        mentions = any(isinstance(n, ast.Name) and n.id == tgt for a in list(c.args) + [k.value for k in c.keywords] for n in ast.walk(a))
+        if not mentions:
+            continue
+        if last in comp_names or last in ("basename", "splitext", "join", "dirname"):
+            continue
+        if d == "open" and _write_mode_b(c):
+            # accepted only as the raw file object wrapped by the compressor (the gz idiom)
+            w = parent(c)
+            inner_ok = False
+            wst = parent(w) if isinstance(w, ast.withitem) else None
+            if isinstance(wst, ast.With):
+                inner_ok = any((dotted(c2.func) or "").split(".")[-1] in comp_names and any(k.arg == "fileobj" for k in c2.keywords)
+                               for s2 in wst.body for c2 in calls_in(s2))
+            if inner_ok:
+                continue
+        others.append(norm(c)[:70])
+    ctx.ob("compress_as.writers", bool(comp_names) and not others, "calls touching the target other than through the format's compressor: %s" % (others or "none"),
+           "the target is produced by get_compressor(fmt) only - never by copying the input verbatim (content that happens to start with the format's magic "
+           "number is still content)", node=ca.node, func=ca)
+    # compress(): the format tested is `fmt` (parameter if given, else the suffix)
+    f = ctx.func(UTILS, "compress")
+    fl = Flow(f)
+    fmtp = f.params[1]
+    calls = calls_in(f.node, "is_compression_format")
+    ok = False
+    fact = None
+    if calls:
+        a = calls[0].args[0]
+        fact = "is_compression_format(%s)" % norm(a)
+        if isinstance(a, ast.Name):
+            ds = fl.defs(a.id, calls[0])
+            ok = a.id == fmtp and "param" in ds
+            # and the same value is handed to compress_as
+            cas = calls_in(f.node, "compress_as")
+            ok = ok and bool(cas) and len(cas[0].args) > 1 and norm(cas[0].args[1]) == fmtp
+    ctx.ob("compress.format", ok, fact, "the value tested and passed on is the `fmt` parameter (falling back to the suffix only when it is None): "
+           "an explicit fmt= for a name without compression suffix still compresses", node=calls[0] if calls else f.node, func=f)
+
+
+def _write_mode_b(call):
+    mode = call.args[1] if len(call.args) > 1 else None
+    for k in call.keywords:
+        if k.arg == "mode":
+            mode = k.value
+    return isinstance(mode, ast.Constant) and isinstance(mode.value, str) and any(ch in mode.value for ch in "wax+")
+
+
 def run(ctx):
-    for r in (rule_table, rule_cleanup, rule_commit, rule_passthrough, rule_zipname):
+    for r in (rule_table, rule_cleanup, rule_commit, rule_passthrough, rule_zipname, rule_writer):
         ctx.attempt(r, ctx)
